@@ -1,11 +1,14 @@
 #!/bin/bash
 # usage: tools/check_at.sh <commit|patchfile> <PID> [PID...]   (quick tier against a scratch worktree of /repo)
-# With a patch file the patch is applied on top of /repo HEAD in the scratch worktree.
+# With a patch file the patch is applied on top of /repo HEAD (or the base_commit of the meta.json next to it).
 what=$1; shift
 WT=$(mktemp -d /var/tmp/wt.XXXXXX); rmdir $WT
 OUT=$(mktemp -d /var/tmp/out.XXXXXX)
 if [ -f "$what" ]; then
-  git -C /repo worktree add -q --detach $WT HEAD || exit 2
+  # a seeded patch may name the /repo commit it was written against (meta.json: base_commit), e.g. when a later
+  # fix: commit rewrote the lines it changes
+  BASE=$(/venv/bin/python -c "import json,sys,os; m=os.path.join(os.path.dirname(os.path.realpath(sys.argv[1])),'meta.json'); print(json.load(open(m)).get('base_commit','HEAD') if os.path.exists(m) else 'HEAD')" "$what")
+  git -C /repo worktree add -q --detach $WT $BASE || exit 2
   git -C $WT apply "$(readlink -f $what)" || { echo "patch does not apply"; git -C /repo worktree remove --force $WT; exit 2; }
 else
   git -C /repo worktree add -q --detach $WT $what || exit 2
